@@ -296,10 +296,12 @@ func runCase(sub string) func(c Case) *vk.Failure {
 		if op.CopyLike != 0 && expect == expMustPanic {
 			// Copy methods copy from an aliasing source; a region panic (the
 			// general rule) is accepted as well, except for Dense.Copy from an
-			// untransposed Dense or VecDense, which the Copier documentation
-			// promises to perform.
+			// untransposed Dense or VecDense of the same stride, which the
+			// Copier documentation promises to perform.
 			expect = expEither
-			if op.Name == "Copy" && pick >= 0 && !c.Args[pick].T && (c.Args[pick].W.K == "D" || c.Args[pick].W.K == "V") {
+			if op.Name == "Copy" && pick >= 0 && !c.Args[pick].T && (c.Args[pick].W.K == "D" || c.Args[pick].W.K == "V") && infos[pick].sameStride {
+				// (with different strides the Element Aliasing rule -- region
+				// panic -- is accepted as well; a returned result must be right)
 				expect = expMustNot
 			}
 		}
